@@ -218,7 +218,8 @@ class AdapterApi:
         w.last_iid = pid
         w.interaction(pid).update(kind='fnf', init=ep)
         w.rec.log(ep, 'app_request', kind='fnf', iid=pid, pid=pid, dl=spec[0], ml=spec[1])
-        self.client(ep).fire_and_forget(p).subscribe(on_completed=lambda: w.rec.log(ep, 'cb_sent', iid=pid))
+        self.client(ep).fire_and_forget(p).subscribe(on_completed=lambda: w.rec.log(ep, 'cb_sent', iid=pid),
+                                                   on_error=lambda ex: w.rec.log(ep, 'cb_sent', iid=pid, x=2))
         return pid
 
     def metadata_push(self, ep, mlen, policy=None):
@@ -227,7 +228,8 @@ class AdapterApi:
         w.last_iid = pid
         w.interaction(pid).update(kind='push', init=ep)
         w.rec.log(ep, 'app_request', kind='push', iid=pid, pid=pid, ml=mlen)
-        self.client(ep).metadata_push(p.metadata).subscribe(on_completed=lambda: w.rec.log(ep, 'cb_sent', iid=pid))
+        self.client(ep).metadata_push(p.metadata).subscribe(on_completed=lambda: w.rec.log(ep, 'cb_sent', iid=pid),
+                                                           on_error=lambda ex: w.rec.log(ep, 'cb_sent', iid=pid, x=2))
         return pid
 
     def request_stream(self, ep, spec, limit=None, policy=None, subscribe=True, sub_raise_in=None):
